@@ -605,3 +605,16 @@ func privatePointers(info *types.Info, body *ast.BlockStmt) map[types.Object]boo
 	}
 	return out
 }
+
+// havocPackageFields: effect of a package-level library function that was given only numbers and
+// strings: it holds no reference into the program, so the only objects it can write are the
+// fields and package variables of its own package.
+func (vc *VC) havocPackageFields(st *State, pkg string) {
+	old := vc.snapshotFields(st)
+	defer vc.keepPrivateStructs(st, old)
+	for _, n := range vc.sortedUniverse() {
+		if len(n) > 2 && (n[:2] == "F$" || n[:2] == "G$") && heapPkg[n] == pkg && !heapStructVal[n] {
+			st.heap[n] = vc.fresh(n, vc.universe[n])
+		}
+	}
+}
